@@ -16,7 +16,7 @@ LOADERS = ("vnacal_load.c", "vnadata_load_touchstone.c", "vnadata_load_npd.c", "
 
 
 def _props(file):
-    p = {"C11"}
+    p = {"C11", "C12"}
     if file in LOADERS:
         p.add("C09")
     if file.startswith("vnacal_new_solve"):
